@@ -150,6 +150,10 @@ class ModuleInfo:
         elif isinstance(st, ast.Try):
             for s in st.body:
                 self._top(s)
+        elif isinstance(st, ast.If):
+            # module-level configuration switches: later (else) assignments win; recorded as an assumption by users
+            for s in st.body + st.orelse:
+                self._top(s)
 
     def resolve_class_expr(self, expr):
         if isinstance(expr, ast.Name):
@@ -313,6 +317,7 @@ class Interp:
         self.max_depth = max_depth
         self.loop_specs = {}
         self.frames = []
+        _GETATTR_INTERP[0] = self
 
     # ---- public
     def func(self, relpath, qual) -> FuncRef:
@@ -705,6 +710,8 @@ class Interp:
     def lookup(self, name, env, fr):
         if name in env:
             return env[name]
+        if name in getattr(self, "stubs", {}):
+            return self.stubs[name]
         mod = fr.func.mod
         # enclosing lambda scopes
         if name in mod.funcs:
@@ -866,6 +873,8 @@ class Interp:
         if isinstance(obj, TorchMod):
             return self.torch_attr(obj, name)
         if isinstance(obj, SelfObj):
+            if name == "__dict__":
+                return obj._attrs
             if name in obj._attrs:
                 return obj._attrs[name]
             r = obj._cls.find_method(name)
@@ -1297,6 +1306,12 @@ class _MaskedSource:
 
 
 def _b_len(x):
+    if isinstance(x, SelfObj):
+        r = x._cls.find_method("__len__")
+        if r is None:
+            raise Unsupported(f"len() of {x._cls.name}")
+        it = _GETATTR_INTERP[0]
+        return it.call(FuncRef(r[0].mod, r[1], r[0]), [], {}, x)
     if isinstance(x, SymTensor):
         return x.shape[0]
     if isinstance(x, SymTD):
